@@ -72,6 +72,7 @@ type Exec struct {
 	funcsSeen map[*ssa.Function]bool
 	spec     bool // speculative (fork-free) evaluation
 	pr       *pathReport
+	lastFoldOK bool
 	concrete map[string]string // replay: symbol tag#occurrence -> value
 	tagCount map[string]int
 	// scheduler
@@ -127,6 +128,9 @@ func (x *Exec) choose(kind byte, n int, feas func(i int) bool) int {
 	}
 	if len(ok) == 0 {
 		x.abort("ASSUME", "no feasible alternative")
+	}
+	if len(ok) > 1 {
+		x.eng.noteFork(x)
 	}
 	for _, alt := range ok[1:] {
 		p := make([]Dec, len(x.dec)+1)
@@ -446,106 +450,327 @@ func (x *Exec) runBlock(fr *Frame) {
 	}
 }
 
-// tryFold handles the diamond produced by `a && b` / `a || b` (and similar pure one-armed ifs):
-//   b: if c goto M else J   (or the mirror image)
-//   M: pure instructions; jump J
-//   J: phi(...)
-// When every instruction of M evaluates without forking, the phis of J become ite terms and
-// execution continues in J without splitting the path.
+// tryFold performs if-conversion of a pure, tree-shaped region: starting at the conditional branch that
+// ends block b, both arms are evaluated speculatively (no forks, no side effects) through single-predecessor
+// blocks containing only pure instructions, until every chain arrives at one common join block J. The phis of
+// J then become nested ite terms and execution continues in J without splitting the path. This covers
+// `a && b`, `a || b`, `if a && b { x += c }`, min/max and nil-guard patterns, including nesting.
+func pureInstr(in ssa.Instruction) bool {
+	switch in := in.(type) {
+	case *ssa.BinOp, *ssa.Field, *ssa.Extract, *ssa.ChangeType, *ssa.FieldAddr, *ssa.DebugRef, *ssa.Convert, *ssa.Index, *ssa.IndexAddr:
+		return true
+	case *ssa.UnOp:
+		return in.Op != token.ARROW
+	case *ssa.Call:
+		if bi, ok := in.Call.Value.(*ssa.Builtin); ok && (bi.Name() == "len" || bi.Name() == "cap") {
+			return true
+		}
+	}
+	return false
+}
+
+// ipdoms computes immediate post-dominators of fn's blocks (nil = the virtual exit).
+func ipdoms(fn *ssa.Function) map[*ssa.BasicBlock]*ssa.BasicBlock {
+	n := len(fn.Blocks)
+	// pdom[i] as bitset over n blocks (+1 for virtual exit, implicit)
+	words := (n + 63) / 64
+	full := make([]uint64, words)
+	for i := 0; i < n; i++ {
+		full[i/64] |= 1 << uint(i%64)
+	}
+	pd := make([][]uint64, n)
+	for i, b := range fn.Blocks {
+		pd[i] = make([]uint64, words)
+		if len(b.Succs) == 0 {
+			pd[i][i/64] |= 1 << uint(i%64)
+		} else {
+			copy(pd[i], full)
+		}
+	}
+	for changed := true; changed; {
+		changed = false
+		for i := n - 1; i >= 0; i-- {
+			b := fn.Blocks[i]
+			if len(b.Succs) == 0 {
+				continue
+			}
+			nw := make([]uint64, words)
+			copy(nw, full)
+			for _, s := range b.Succs {
+				for w := range nw {
+					nw[w] &= pd[s.Index][w]
+				}
+			}
+			nw[i/64] |= 1 << uint(i%64)
+			for w := range nw {
+				if nw[w] != pd[i][w] {
+					changed = true
+				}
+			}
+			pd[i] = nw
+		}
+	}
+	count := func(bs []uint64) int {
+		c := 0
+		for _, w := range bs {
+			for ; w != 0; w &= w - 1 {
+				c++
+			}
+		}
+		return c
+	}
+	res := map[*ssa.BasicBlock]*ssa.BasicBlock{}
+	for i, b := range fn.Blocks {
+		best, bestN := -1, -1
+		for j := 0; j < n; j++ {
+			if j != i && pd[i][j/64]&(1<<uint(j%64)) != 0 {
+				if c := count(pd[j]); c > bestN {
+					best, bestN = j, c
+				}
+			}
+		}
+		if best >= 0 {
+			res[b] = fn.Blocks[best]
+		}
+	}
+	return res
+}
+
+func (e *Engine) ipdom(b *ssa.BasicBlock) *ssa.BasicBlock {
+	fn := b.Parent()
+	v, ok := e.pdomCache.Load(fn)
+	if !ok {
+		v, _ = e.pdomCache.LoadOrStore(fn, ipdoms(fn))
+	}
+	return v.(map[*ssa.BasicBlock]*ssa.BasicBlock)[b]
+}
+
+type foldEdge struct {
+	from *ssa.BasicBlock
+	cond *Term
+}
+
 func (x *Exec) tryFold(fr *Frame, b *ssa.BasicBlock, c *Term) bool {
-	if x.eng.noFold {
+	if x.eng.noFold || x.eng.foldHopeless(b) {
 		return false
 	}
-	for side := 0; side < 2; side++ {
-		m, j := b.Succs[side], b.Succs[1-side]
-		if len(m.Preds) != 1 || len(m.Succs) != 1 || m.Succs[0] != j || len(m.Instrs) > 12 {
-			continue
+	join := x.eng.ipdom(b)
+	if join == nil {
+		x.eng.foldResult(b, false)
+		return false
+	}
+	// region = blocks reachable from b's successors without passing through join
+	region := map[*ssa.BasicBlock]bool{}
+	var order []*ssa.BasicBlock
+	okRegion := true
+	var dfs func(blk *ssa.BasicBlock)
+	dfs = func(blk *ssa.BasicBlock) {
+		if blk == join || region[blk] || !okRegion {
+			return
 		}
-		if _, ok := j.Instrs[0].(*ssa.Phi); !ok {
-			continue
+		if blk == b || len(region) >= 10 {
+			okRegion = false
+			return
 		}
-		pure := true
-		for _, in := range m.Instrs[:len(m.Instrs)-1] {
-			switch in := in.(type) {
-			case *ssa.BinOp, *ssa.Field, *ssa.Extract, *ssa.ChangeType, *ssa.FieldAddr, *ssa.DebugRef:
-			case *ssa.UnOp:
-				if in.Op == token.ARROW {
-					pure = false
-				}
-			case *ssa.Call:
-				if bi, ok := in.Call.Value.(*ssa.Builtin); !ok || (bi.Name() != "len" && bi.Name() != "cap") {
-					pure = false
-				}
-			default:
-				pure = false
+		n := len(blk.Instrs)
+		for _, in := range blk.Instrs[:n-1] {
+			if _, isPhi := in.(*ssa.Phi); isPhi {
+				continue
+			}
+			if !pureInstr(in) {
+				okRegion = false
+				return
 			}
 		}
-		if !pure {
-			continue
+		switch blk.Instrs[n-1].(type) {
+		case *ssa.Jump, *ssa.If:
+		default:
+			okRegion = false
+			return
 		}
-		cond := c
-		if side == 1 {
-			cond = tNot(c)
+		region[blk] = true
+		order = append(order, blk)
+		for _, s := range blk.Succs {
+			dfs(s)
 		}
-		ok := func() (ok bool) {
-			x.spec = true
-			defer func() {
-				x.spec = false
-				if r := recover(); r != nil {
-					if _, is := r.(specFail); is {
-						ok = false
-						return
-					}
-					if a, is := r.(abortSig); is && (a.Kind == "PANIC" || a.Kind == "UNSUPPORTED") {
-						ok = false
-						return
-					}
-					panic(r)
-				}
-			}()
-			for _, in := range m.Instrs[:len(m.Instrs)-1] {
-				x.step(fr, in)
+	}
+	for _, s := range b.Succs {
+		dfs(s)
+	}
+	if !okRegion {
+		x.eng.foldResult(b, false)
+		return false
+	}
+	// topological order (Kahn) over region, in-degree counted over edges from region ∪ {b}
+	indeg := map[*ssa.BasicBlock]int{}
+	for blk := range region {
+		for _, p := range blk.Preds {
+			if p == b || region[p] {
+				indeg[blk]++
 			}
-			return true
-		}()
-		if !ok {
-			return false
 		}
-		// compute phis of J
+	}
+	in := map[*ssa.BasicBlock][]foldEdge{}
+	addEdge := func(from, to *ssa.BasicBlock, cond *Term) {
+		if cond.IsConc() && !cond.C.(bool) {
+			// edge not taken; still counts for the in-degree bookkeeping
+		} else {
+			in[to] = append(in[to], foldEdge{from, cond})
+		}
+		if region[to] {
+			indeg[to]--
+		}
+	}
+	mergePhis := func(blk *ssa.BasicBlock, edges []foldEdge) (int, bool) {
+		nphi := 0
 		var phis []*ssa.Phi
 		var vals []Value
-		for _, in := range j.Instrs {
-			p, isPhi := in.(*ssa.Phi)
+		for _, inst := range blk.Instrs {
+			p, isPhi := inst.(*ssa.Phi)
 			if !isPhi {
 				break
 			}
-			var vm, vb Value
-			for i, pred := range j.Preds {
-				if pred == m {
-					vm = x.get(fr, p.Edges[i])
-				} else if pred == b {
-					vb = x.get(fr, p.Edges[i])
+			nphi++
+			var acc Value
+			for k := len(edges) - 1; k >= 0; k-- {
+				ed := edges[k]
+				var v Value
+				for i, pred := range blk.Preds {
+					if pred == ed.from {
+						v = x.get(fr, p.Edges[i])
+						break
+					}
 				}
-			}
-			tm, ok1 := vm.(*Term)
-			tb, ok2 := vb.(*Term)
-			if !ok1 || !ok2 || tm.S != tb.S || (tm.S != SBool && tm.S != SInt) {
-				return false
+				if acc == nil {
+					acc = v
+					continue
+				}
+				ta, ok1 := acc.(*Term)
+				tv, ok2 := v.(*Term)
+				if ok1 && ok2 && ta.S == tv.S && (tv.S == SBool || tv.S == SInt) {
+					acc = tIte(ed.cond, tv, ta)
+					continue
+				}
+				if sameValue(acc, v) {
+					continue
+				}
+				return 0, false
 			}
 			phis = append(phis, p)
-			vals = append(vals, tIte(cond, tm, tb))
-		}
-		if len(j.Preds) > 2 {
-			// J has further predecessors: a fold would need the phi for edges we are not on; it is still fine,
-			// because we arrive through exactly one (virtual) edge.
+			vals = append(vals, acc)
 		}
 		for i, p := range phis {
 			fr.env[p] = vals[i]
 		}
-		// run the remainder of J (skipping its phis) as if we had arrived normally
-		fr.prev = m
-		fr.block = j
-		x.runBlockFrom(fr, j, len(phis))
+		return nphi, true
+	}
+	ok := func() (ok bool) {
+		x.spec = true
+		defer func() {
+			x.spec = false
+			if r := recover(); r != nil {
+				if _, is := r.(specFail); is {
+					ok = false
+					return
+				}
+				if a, is := r.(abortSig); is && (a.Kind == "PANIC" || a.Kind == "UNSUPPORTED") {
+					ok = false
+					return
+				}
+				panic(r)
+			}
+		}()
+		addEdge(b, b.Succs[0], c)
+		addEdge(b, b.Succs[1], tNot(c))
+		done := map[*ssa.BasicBlock]bool{}
+		for progress := true; progress; {
+			progress = false
+			for _, blk := range order {
+				if done[blk] || indeg[blk] > 0 {
+					continue
+				}
+				done[blk] = true
+				progress = true
+				edges := in[blk]
+				if len(edges) == 0 {
+					// unreachable under the current (concrete) conditions: propagate nothing
+					for _, s := range blk.Succs {
+						if region[s] {
+							indeg[s]--
+						}
+					}
+					continue
+				}
+				cond := tFalse
+				for _, ed := range edges {
+					cond = tOr(cond, ed.cond)
+				}
+				nphi, ok := mergePhis(blk, edges)
+				if !ok {
+					return false
+				}
+				n := len(blk.Instrs)
+				for _, inst := range blk.Instrs[nphi : n-1] {
+					x.step(fr, inst)
+				}
+				switch t := blk.Instrs[n-1].(type) {
+				case *ssa.Jump:
+					addEdge(blk, blk.Succs[0], cond)
+				case *ssa.If:
+					ct, isT := x.get(fr, t.Cond).(*Term)
+					if !isT {
+						return false
+					}
+					addEdge(blk, blk.Succs[0], tAnd(cond, ct))
+					addEdge(blk, blk.Succs[1], tAnd(cond, tNot(ct)))
+				}
+			}
+		}
+		for _, blk := range order {
+			if !done[blk] {
+				return false // cycle inside the region
+			}
+		}
+		return true
+	}()
+	if !ok || len(in[join]) == 0 {
+		x.eng.foldResult(b, false)
+		return false
+	}
+	nphi, okPhi := mergePhis(join, in[join])
+	if !okPhi {
+		x.eng.foldResult(b, false)
+		return false
+	}
+	fr.prev = in[join][0].from
+	fr.block = join
+	x.eng.foldResult(b, true)
+	x.runBlockFrom(fr, join, nphi)
+	return true
+}
+
+// sameValue: identical non-term values (same pointer / same concrete scalar) may be merged without an ite.
+func sameValue(a, b Value) bool {
+	switch a := a.(type) {
+	case *Term:
+		tb, ok := b.(*Term)
+		return ok && a.S == tb.S && a.E == tb.E
+	case *Pointer:
+		pb, ok := b.(*Pointer)
+		if !ok || (a == nil) != (pb == nil) {
+			return false
+		}
+		if a == nil {
+			return true
+		}
+		if a.Obj != pb.Obj || len(a.Path) != len(pb.Path) {
+			return false
+		}
+		for i := range a.Path {
+			if a.Path[i] != pb.Path[i] {
+				return false
+			}
+		}
 		return true
 	}
 	return false
@@ -1239,7 +1464,7 @@ func (x *Exec) prepCall(fr *Frame, c *ssa.CallCommon) (func([]Value) Value, []Va
 			}
 			x.abort("UNSUPPORTED", fmt.Sprintf("method %s on engine-native %T", c.Method.Name(), iv.V))
 		}
-		fn := x.prog.LookupMethod(iv.T, c.Method.Pkg(), c.Method.Name())
+		fn := x.findMethod(iv.T, c.Method.Pkg(), c.Method.Name())
 		if fn == nil {
 			x.abort("UNSUPPORTED", "no method "+c.Method.Name()+" on "+iv.T.String())
 		}
